@@ -257,3 +257,17 @@ package dispatch
 //@             && count("notify.WithRepeatInterval") == count("aggrGroup).flush") && count("notify.WithMuteTimeIntervals") == count("aggrGroup).flush") && count("notify.WithActiveTimeIntervals") == count("aggrGroup).flush")
 //@             && count("marker.WithContext") == count("aggrGroup).flush")
 //@   loop 1 invariant count("aggrGroup).resetTimer") == count("aggrGroup).flush") && count("notify.WithNow") == count("aggrGroup).flush")
+
+// C06/C07: an incoming alert is handed to the aggregation of every route the routing tree selects for its labels -
+// each selected route exactly once, in order, with this alert - and to no other route.
+//@ func (*Dispatcher).routeAlert
+//@   props C06 C07
+//@   nosafe
+//@   requires d != nil && alert != nil && d.route != nil && tracer != nil
+//@   after call Tracer).Start assume res0 != nil && res1 != nil
+//@   at call Route).Match assert [routes-for-this-alert's-labels] arg0 == d.route && arg1 == alert.Labels
+//@   at call Dispatcher).groupAlert assert [the-next-selected-route-with-this-alert] arg2 == alert && rangeindex1 + 1 < len(ret("Route).Match")) && arg3 == ret("Route).Match")[rangeindex1 + 1] && count("Dispatcher).groupAlert") == rangeindex1 + 1
+//@   ensures [every-selected-route-once] count("Route).Match") == 1 && count("Dispatcher).groupAlert") == len(ret("Route).Match"))
+//@   loop 1 invariant rangeindex < len(ret("Route).Match")) && count("Dispatcher).groupAlert") == rangeindex + 1 && count("Route).Match") == 1
+//@   opaque Route).Match Dispatcher).groupAlert
+//@   noeffect Route).Match Dispatcher).groupAlert Tracer).Start Span).End Span).AddEvent Observe
